@@ -353,4 +353,64 @@ def run(ctx, ck):
                 lits.append(g.qual)
     ck.ob('R-EFFECT.wavelength', 'speed-of-light-literal', sorted(set(lits)) == ['mininec.Mininec.f@setter'],
           m.func('mininec.Mininec.f@setter').loc(), 'functions containing the literal 299.8: %s' % sorted(set(lits)))
+    # ---------------------------------------------------------------- D5
+    # a decision taken from the sign of a horizontal direction cosine changes when the antenna is turned by
+    # 180 degrees about the vertical: tests on direction vectors may ask "is there a horizontal component"
+    # (truth value, != 0, abs, square, norm) but not "is it positive"
+    ck.rule('R-SYM.direction-sign', 'no decision depends on the sign of a horizontal direction component')
+    n_dir = 0
+    for g in sorted(m.all_funcs(), key=lambda x: x.qual):
+        if g.module.name not in ('mininec', 'pulse', 'segment'):
+            continue
+        cmps = [c for c in walk_no_nested(g.node) if isinstance(c, ast.Compare) and len(c.ops) == 1 and
+                isinstance(c.ops[0], (ast.Lt, ast.Gt, ast.LtE, ast.GtE))]
+        uses_dir = any(isinstance(x, ast.Attribute) and x.attr in ('dirvec', 'diff') for x in ast.walk(g.node))
+        if not cmps or not uses_dir:
+            continue
+        gfl = ctx.flow(g)
+        for c in cmps:
+            sides = [c.left, c.comparators[0]]
+            zero = [isinstance(x, ast.Constant) and x.value == 0 for x in sides]
+            if zero[0] == zero[1]:
+                continue
+            e = sides[1] if zero[0] else sides[0]
+            try:
+                e = gfl.inline(e, gfl.node_id_of(c), depth=3)
+            except Exception:
+                pass
+
+            def signed_horizontal(x, under_abs=False):
+                """a horizontal component of a direction vector that reaches the comparison with its sign"""
+                if isinstance(x, ast.Call):
+                    nm = (dotted(x.func) or '').split('.')[-1]
+                    if nm in ('abs', 'absolute', 'fabs', 'norm', 'hypot', 'square'):
+                        return None
+                    for a_ in list(x.args) + ([x.func.value] if isinstance(x.func, ast.Attribute) else []):
+                        r_ = signed_horizontal(a_)
+                        if r_ is not None:
+                            return r_
+                    return None
+                if isinstance(x, ast.BinOp) and isinstance(x.op, ast.Pow):
+                    return None
+                if isinstance(x, ast.Subscript):
+                    b_ = x.value
+                    if isinstance(b_, ast.Attribute) and b_.attr in ('dirvec', 'diff'):
+                        sl = x.slice
+                        idx = sl.elts[-1] if isinstance(sl, ast.Tuple) and sl.elts else sl
+                        horiz = (isinstance(idx, ast.Constant) and idx.value in (0, 1)) or \
+                            (isinstance(idx, ast.Slice) and idx.lower is None and isinstance(idx.upper, ast.Constant) and idx.upper.value == 2)
+                        return x if horiz else None
+                for ch in ast.iter_child_nodes(x):
+                    r_ = signed_horizontal(ch)
+                    if r_ is not None:
+                        return r_
+                return None
+            hit = signed_horizontal(e)
+            if hit is not None:
+                n_dir += 1
+                ck.ob('R-SYM.direction-sign', '%s|%s' % (g.qual, norm(c)[:60]), False, g.loc(c),
+                      'the test %s depends on the sign of the horizontal direction component %s: turning the antenna by '
+                      '180 degrees about the vertical changes the decision' % (norm(c)[:60], norm(hit)[:50]))
+    ck.ob('R-SYM.direction-sign', 'package', n_dir == 0, m.func('pulse.Pulse.is_non_vertical_grounded').loc(),
+          'no ordering test on a signed horizontal direction component' if n_dir == 0 else '%d sign-dependent tests' % n_dir)
     ck.undecided += ['invariance of impedances, currents and pattern to 5e-4 (numeric)']
